@@ -565,7 +565,7 @@ pub fn run(args: &Args) -> i32 {
     let mut amodels = vec![];
     for theme in crate::alphabet::THEMES {
         for bname in ["B1", "B2"] {
-            let (edits, others) = if args.thorough() { (vec![2, 2], 2) } else { (vec![2, 1], 1) };
+            let (edits, others) = if args.thorough() { (vec![2, 2], 2) } else if *bname == *"B2" { (vec![1, 1], 1) } else { (vec![2, 1], 1) };
             if !args.thorough() && *bname == *"B2" && !matches!(*theme, "text") {
                 continue;
             }
